@@ -375,18 +375,26 @@ impl TryFrom<&syn::Type> for RustType {
                     }
                     _ => Vec::default(),
                 };
+                // A container written without its type arguments (e.g. a bare `Vec`) is not a
+                // type we can translate: report it instead of panicking.
+                fn argument(
+                    parameter: Option<RustType>,
+                    id: &str,
+                ) -> Result<RustType, RustTypeParseError> {
+                    parameter.ok_or_else(|| RustTypeParseError::UnsupportedType(vec![id.to_owned()]))
+                }
                 match id.as_str() {
                     "Vec" => Self::Special(SpecialRustType::Vec(
-                        parameters.into_iter().next().unwrap().into(),
+                        argument(parameters.into_iter().next(), &id)?.into(),
                     )),
                     "Option" => Self::Special(SpecialRustType::Option(
-                        parameters.into_iter().next().unwrap().into(),
+                        argument(parameters.into_iter().next(), &id)?.into(),
                     )),
                     "HashMap" => {
                         let mut params = parameters.into_iter();
                         Self::Special(SpecialRustType::HashMap(
-                            params.next().unwrap().into(),
-                            params.next().unwrap().into(),
+                            argument(params.next(), &id)?.into(),
+                            argument(params.next(), &id)?.into(),
                         ))
                     }
                     "OffsetDateTime" => Self::Special(SpecialRustType::DateTime),
@@ -394,7 +402,7 @@ impl TryFrom<&syn::Type> for RustType {
                     // These smart pointers can be treated as their inner type since serde can handle it
                     // See impls of serde::Deserialize
                     "Box" | "Weak" | "Arc" | "Rc" | "Cow" | "ArcWeak" | "RcWeak" | "Cell"
-                    | "Mutex" | "RefCell" | "RwLock" => parameters.into_iter().next().unwrap(),
+                    | "Mutex" | "RefCell" | "RwLock" => argument(parameters.into_iter().next(), &id)?,
                     "bool" => Self::Special(SpecialRustType::Bool),
                     "char" => Self::Special(SpecialRustType::Char),
                     "u8" => Self::Special(SpecialRustType::U8),
